@@ -138,6 +138,22 @@ def transcript(sc, d):
             except Exception as e:
                 fresh_[k_] = 'raised ' + type(e).__name__
         out['one_object'] = [[calls[k_][0], calls[k_][1], got_[k_], fresh_[k_]] for k_ in range(len(calls))]
+        # derived words in a defined order; lists handed out are the caller's own
+        wa_ = wn.Wordnet('a:1')
+        out['derived_words'] = [[x.id, [d_.id for d_ in x.derived_words()]] for x in wa_.words()] + \
+            [[x.id, [d_.id for d_ in x.derived_words()]] for x in wn.Wordnet('m:1').words()]
+        mbad = []
+        for x in wa_.words():
+            before = [str(x.lemma()), [str(f_) for f_ in x.forms()]]
+            fs_ = x.forms()
+            if fs_:
+                fs_.pop(0)
+            fs_.sort(reverse=True)
+            fs_.append('zz')
+            after = [str(x.lemma()), [str(f_) for f_ in x.forms()]]
+            if before != after:
+                mbad.append([x.id, before, after])
+        out['caller_mutation_bad'] = mbad[:3]
         # lookups with a lemmatizer
         lw = wn.Wordnet('a:1', lemmatizer=Morphy(wn.Wordnet('a:1')))
         out['lookups'] = [[q, [x.id for x in lw.words(q)], [x.id for x in lw.synsets(q)], [x.id for x in wn.words(q)]] for q in sc['queries']]
@@ -179,7 +195,7 @@ def main():
         t2 = json.dumps(transcript(sc, d), ensure_ascii=False, default=str)      # repetition within the process
         bad = [c for c in json.loads(t1).get('one_object', []) if c[2] != c[3]]
         print(json.dumps({'first': t1, 'repeat_equal': t1 == t2, 'second_sha': hashlib.sha256(t2.encode()).hexdigest(),
-                          'one_object_bad': bad[:4]}))
+                          'one_object_bad': bad[:4], 'caller_mutation_bad': json.loads(t1).get('caller_mutation_bad', [])}))
     finally:
         import shutil
         shutil.rmtree(d, ignore_errors=True)
